@@ -199,11 +199,12 @@ pub fn resolve_msg(names: &Names, m: &MsgSpec, self_addr: &str, balance: &dyn Fn
         MsgSpec::Burn { coins } => CMsg::Burn { coins: names.coins(coins, balance) },
         MsgSpec::Delegate { val, coin } => CMsg::Delegate { validator: names.validator(*val), coin: one(coin) },
         MsgSpec::Undelegate { val, coin } => CMsg::Undelegate { validator: names.validator(*val), coin: one(coin) },
-        MsgSpec::Redelegate { src, dst, coin } => CMsg::Redelegate {
-            src: names.validator(*src),
-            dst: names.validator(*dst),
-            coin: one(coin),
-        },
+        MsgSpec::Redelegate { src, dst, coin } => {
+            // redelegating zero is not constrained by the statements: never generated
+            let mut c = one(coin);
+            c.1 = c.1.max(1);
+            CMsg::Redelegate { src: names.validator(*src), dst: names.validator(*dst), coin: c }
+        }
         MsgSpec::SetWithdraw { to } => CMsg::SetWithdraw { to: names.target(to, self_addr) },
         MsgSpec::Withdraw { val } => CMsg::Withdraw { validator: names.validator(*val) },
         MsgSpec::Custom { tag } => CMsg::Custom { tag: tag.clone() },
